@@ -309,8 +309,8 @@ theorem redirect_port_deterministic (c : Config) (P : Params) (π : Orders) (d :
     · rw [mkRedirRoute_port, h1 a ha]
 
 /-
-**Determinism, full statement** (false on the unchanged tree — `Witness.deterministic_full_fails`,
-`Witness.receiver_depends_on_order`, `Witness.effective_depends_on_route_order`):
+**Determinism, full statement** (false on the unchanged tree — `Witness.deterministic_old_code_fails`,
+`Witness.receiver_old_code_depends_on_order`, `Witness.effective_old_code_depends_on_route_order`):
 
     ∀ c P π π', SameResult (phase1Result c P π) (phase1Result c P π')
 -/
@@ -331,8 +331,9 @@ theorem redirect_sources_deterministic (c : Config) (P : Params) (π π' : Order
 
 example : ambName exCfg 2 = false ∧ ambName cfgF16 1 = true := by decide
 
-/-- **determinism, the provable part**, for ALL configurations and ALL pairs of iteration
-    orders: (1) `allCertDomains` is the same set; (2) the automation policies are the same list
+/-- **what never depended on the iteration orders** (a statement about the model with
+    arbitrary orders, i.e. also about the code before the repair), for ALL configurations and
+    ALL pairs of iteration orders: (1) `allCertDomains` is the same set; (2) the automation policies are the same list
     up to the order of the subjects inside the implicit internal / tailscale policies;
     (3) every configured server keeps its listeners and gets the same `Disabled` flag and the
     same TLS-connection-policy state; (4) every name that is served on one port only (the
@@ -343,7 +344,7 @@ example : ambName exCfg 2 = false ∧ ambName cfgF16 1 = true := by decide
     relative order of the redirect routes and hence `effective` coincide for configurations
     with `ambiguous c = false` — that part is carried by the correspondence stream and the
     repeated-provision oracle only. -/
-theorem deterministic_partial (c : Config) (P : Params) (π π' : Orders) :
+theorem old_code_order_independent_part (c : Config) (P : Params) (π π' : Orders) :
     (∀ d, d ∈ (phase1Result c P π).certs ↔ d ∈ (phase1Result c P π').certs) ∧
     samePolicies (phase1Result c P π).policies (phase1Result c P π').policies ∧
     (c.reserved = none → ∀ k, k < c.servers.length →
@@ -369,5 +370,34 @@ theorem deterministic_partial (c : Config) (P : Params) (π π' : Orders) :
     exact (redirect_sources_deterministic c P π π' d h a).2
 
 example : singlePort exCfg 2 8443 = true ∧ ambiguous exCfg = false := by decide
+
+/-- **determinism, at full strength, of the repaired code.**  Every `range` of phase 1 runs
+    over `slices.Sorted(maps.Keys(m))`: with `κ` the sorted key lists (naming every key the
+    maps can hold — `Complete`) and `ρ`, `ρ'` any two runtime iteration orders of the maps,
+    provisioning yields the SAME outcome: the same error, or structurally the same
+    `allCertDomains`, automation policies, servers and route lists.  (For the code before the
+    repair, whose orders are arbitrary, this is false: `Witness.deterministic_old_code_fails`.) -/
+theorem deterministic (c : Config) (P : Params) (κ ρ ρ' : Orders) (h : Complete c κ) :
+    phase1 c P (κ.over ρ) = phase1 c P (κ.over ρ') ∧
+    certsOf c P (κ.over ρ) = certsOf c P (κ.over ρ') ∧
+    policiesOf c P (κ.over ρ) = policiesOf c P (κ.over ρ') ∧
+    serversOf c P (κ.over ρ) = serversOf c P (κ.over ρ') := by
+  refine ⟨?_, ?_, ?_, ?_⟩
+  · rw [phase1_over c P κ ρ h, phase1_over c P κ ρ' h]
+  · rw [certsOf_over c P κ ρ h, certsOf_over c P κ ρ' h]
+  · rw [policiesOf_over c P κ ρ h, policiesOf_over c P κ ρ' h]
+  · rw [serversOf_over c P κ ρ h, serversOf_over c P κ ρ' h]
+
+example : Complete cfgShadow κShadow := κShadow_complete
+
+/-- with complete sorted keys the F16 configuration has one outcome, whatever the runtime order -/
+example : Complete cfgF16 ⟨[0, 1], [1], [0, 1], [tcp [] 8443, tcp [] 9443], [tcp [] 80], fun _ => [0, 1], [tcp [] 80]⟩ := by
+  refine ⟨?_, ?_, by decide, by decide, by decide, by decide, by decide, by decide⟩
+  · intro i hi
+    have : i = 0 ∨ i = 1 := by simp [cfgF16] at hi; omega
+    rcases this with rfl | rfl <;> simp
+  · intro R i hi
+    have : i = 0 ∨ i = 1 := by simp [cfgF16] at hi; omega
+    rcases this with rfl | rfl <;> simp
 
 end CaddyModel.C11
